@@ -1073,6 +1073,14 @@ func (g *Gen) addUnmanaged(d *GConf) {
 				"group-policy ManualSplit attributes\n split-tunnel-network-list value kept_acl-DRC-7")
 		}
 		if g.Rng.Intn(2) == 0 {
+			// Hand-made objects whose names merely contain "-DRC"
+			// (disaster recovery center), not the generated-name tag,
+			// and that nothing refers to.
+			d.Groups = append(d.Groups, &GGroup{"kept_hosts-DRC", []string{"host 192.168.7.50", "host 192.168.7.51"}})
+			d.ACLs = append(d.ACLs, &GACL{"kept_backup-DRCENTER", []string{"permit ip object-group kept_hosts-DRC any4"}},
+				&GACL{"kept_vpn-DRC2", []string{"permit ip host 192.168.7.52 any4"}})
+		}
+		if g.Rng.Intn(2) == 0 {
 			d.ACLs = append(d.ACLs, &GACL{"keptfilter-DRC-3", []string{"permit ip any4 host 192.168.7.30"}})
 			d.Extra = append(d.Extra,
 				"ip local pool keptpool-DRC-3 192.168.8.32-192.168.8.63 mask 255.255.255.224",
@@ -1105,6 +1113,11 @@ func (g *Gen) addUnmanaged(d *GConf) {
 		if g.Rng.Intn(2) == 0 {
 			d.Extra = append(d.Extra, "ip route vrf Vkept 0.0.0.0 0.0.0.0 10.9.9.254")
 		}
+	}
+	if g.Rng.Intn(2) == 0 {
+		d.ACLs = append(d.ACLs, &GACL{"kept_mgmt-DRC2", []string{"permit ip host 192.168.7.60 any", "deny ip any any"}},
+			&GACL{"kept_unused-DRCENTER", []string{"permit ip host 192.168.7.61 any"}})
+		d.Extra = append(d.Extra, "line vty 5 15\n access-class kept_mgmt-DRC2 in")
 	}
 	d.Extra = append(d.Extra,
 		"interface Loopback0\n ip address 192.168.9.1 255.255.255.255\n shutdown\n ip access-group mgmt_in in",
